@@ -384,7 +384,7 @@ PROPS["C18"] = dict(
                "exactly to the end of the window read from the old token (depsPass_single, depsPass_main_origin; windows tile the feed by C02.resume_exact); the builder keeps every declared "
                "dependency, adds one per intermediate join dataset with the remaining joins, without duplicates (buildDeps_spec). Regenerated facts: dependencies before the main page and not "
                "during a full sync, token advanced after the join loop, conditions of the back-dated query, lookup scoped to the main dataset, watermark of an empty change log. The real "
-               "MultiSource (built by parseSource, run by the pipeline) is compared with model and graph specification on generated histories. PARTIAL for inverse joins (D4).",
+               "MultiSource (built by parseSource, run by the pipeline) is compared with model and graph specification on generated histories. PARTIAL for inverse joins (D4). Registered queries (track_queries): if the transform can get from a main entity x to an entity y by a chain of hops it registered, the dependency the builder derives from the chain leads from y back to x, for any relation that is symmetric under transposition (reverseHops_reaches). A dependency dataset's token is held while another dependency on that dataset is still to come (depsPass_token_held; defect D33 was the opposite) and datasets without a dependency keep their token (depsPass_tok_frame); interrupted runs are exercised with the sink rejecting the n-th batch and what the interrupted run owed is checked on the next run.",
     level_note="Trusted: Lean kernel, factgen, badger, goja. Run schedules 'until the tokens stop advancing' are sampled (three consecutive runs), the per-window statement is proved.",
 )
 
